@@ -71,6 +71,7 @@ func init() {
 		"fmt.Sprintln":                         iFmtSprintln,
 		"fmt.Fprintf":                          iFmtFprintf,
 		"errors.Is":                            nil,
+		"html/template.HTMLEscapeString":       iTemplateHTMLEscapeString,
 		"reflect.DeepEqual":                    iDeepEqual,
 		"(reflect.Value).IsNil":                iReflIsNil,
 		"(reflect.Value).IsValid":              iReflIsValid,
@@ -901,4 +902,12 @@ func (in *Interp) quoteSymForce(s StrV) ([]*Term, bool) {
 		}
 	}
 	return append(out, in.tt.b8['"']), true
+}
+
+// libraries whose package-level variables may be touched although their initialisers are not run
+// (zero values are their correct initial state, or the engine models every function that reads them)
+var benignGlobals = map[string]bool{"sync": true, "sync/atomic": true, "errors": true, "fmt": true}
+
+func iTemplateHTMLEscapeString(in *Interp, fn *ssa.Function, a []Value) Value {
+	return in.htmlTemplateEscape(a[0].(StrV))
 }
